@@ -142,6 +142,26 @@ def readGroups (disk : GroupsD) : Option GroupsD :=
   let g := disk.map dedupKern
   if groupsValidator g then some g else none
 
+/-! ## Registration data (regenerated from the source into `Gen/KernTables.lean`) -/
+
+/-- `destructiveNotifications` as written in the source: `("Groups.Changed")` is a parenthesised
+STRING, so `notificationName in destructiveNotifications` is a substring test; a tuple/list/set is a
+membership test. -/
+inductive Destr where
+  | str (s : String)
+  | coll (l : List String)
+deriving DecidableEq, Repr
+
+def isInfixL : List Char → List Char → Bool
+  | p, [] => p.isEmpty
+  | p, c :: r => p.isPrefixOf (c :: r) || isInfixL p r
+
+/-- `notificationName in destructiveNotifications` (base.py:385) -/
+def destroys (d : Destr) (name : String) : Bool :=
+  match d with
+  | .str s => isInfixL name.toList s.toList
+  | .coll l => l.contains name
+
 /-! ## State -/
 
 /-- what the font holds and what its UFO holds -/
